@@ -49,7 +49,7 @@ type WL struct {
 }
 
 var negVariants = []string{"", "", "opt_codec", "opt_level", "opt_shard", "opt_batch", "opt_targets_drop", "opt_targets_add", "opt_targets_reorder", "opt_driver",
-	"src_add_node", "src_del_node", "src_add_rel", "stray_file", "stray_file_graphdir", "frag_flip", "frag_trunc", "frag_remove", "frag_swap"}
+	"opt_salt", "opt_scrub", "src_add_node", "src_del_node", "src_add_rel", "stray_file", "stray_file_graphdir", "frag_flip", "frag_trunc", "frag_remove", "frag_swap"}
 
 func gen(r *rand.Rand) WL {
 	w := WL{DB: stor.GenDB(r, 2, 6, 6)}
@@ -60,6 +60,9 @@ func gen(r *rand.Rand) WL {
 	w.Opts = stor.GenOpts(r, n)
 	if r.IntN(3) > 0 {
 		w.Opts.Shard = 1 + r.IntN(3) // several fragments: the interesting protocol states
+	}
+	if r.IntN(4) == 0 {
+		w.Opts.Salt = []string{"pepper", "s@lt with space", "盐"}[r.IntN(3)] // scrub=full
 	}
 	w.Fault.K = r.Uint32()
 	switch x := r.IntN(20); {
@@ -109,6 +112,7 @@ func scratch() string {
 }
 
 type runner struct {
+	expect   stor.DBSpec // what a complete dump must load to (the source, or the scrubbed source)
 	w        WL
 	base     string
 	out      string
@@ -242,7 +246,23 @@ func (r *runner) dump(ctx context.Context, src *simdb.DB, targets []retriever.Gr
 	return err, rep
 }
 
-func mutating(ops []simos.Op) int { return len(ops) }
+// dryResumeOps runs a fault-free resume on a copy of the current image and reports how many
+// mutating operations it performs; the image itself is left untouched.
+func (r *runner) dryResumeOps(targets []retriever.GraphTarget) int {
+	if !exists(r.out) {
+		return 1
+	}
+	save := r.out + ".saved"
+	os.RemoveAll(save)
+	if err := stor.CopyTree(r.out, save); err != nil {
+		return 1
+	}
+	_, rep := r.dump(context.Background(), stor.Build(r.w.DB), targets, "simdb", r.opts(true), simos.Plan{})
+	os.RemoveAll(r.out)
+	os.Rename(save, r.out)
+	r.evals++
+	return max(1, rep.Ops)
+}
 
 // applyNegative edits options / source / image; returns false when the variant does not apply.
 func (r *runner) applyNegative(neg string, arg uint32, spec *stor.DBSpec, o *retriever.DumpOptions, targets *[]retriever.GraphTarget, driver *string, ck *checkpointView, hadCk bool) bool {
@@ -257,6 +277,17 @@ func (r *runner) applyNegative(neg string, arg uint32, spec *stor.DBSpec, o *ret
 		o.BatchSize++
 	case "opt_driver":
 		*driver = "other-driver"
+	case "opt_salt":
+		if r.w.Opts.Salt == "" {
+			return false
+		}
+		o.Salt = r.w.Opts.Salt + "x"
+	case "opt_scrub":
+		if r.w.Opts.Salt == "" {
+			o.Scrub, o.Salt = retriever.ScrubFull, "late-salt"
+		} else {
+			o.Scrub, o.Salt = retriever.ScrubNone, ""
+		}
 	case "opt_targets_drop":
 		if len(*targets) < 2 {
 			return false
@@ -391,20 +422,22 @@ func (r *runner) crashRun(k, j int, nested []uint32, neg string, negArg uint32) 
 			r.counters["torn_writes"]++
 		}
 	}
-	if d := r.imageInvariant(r.w.DB, tag); d != "" {
+	if d := r.imageInvariant(r.expect, tag); d != "" {
 		return "oracle:partial_dump_has_manifest", d
 	}
 	// nested crashes during resume
 	for ni, nk := range nested {
 		pre := stor.SnapshotDir(r.out)
 		ck, hadCk := r.readCheckpoint()
-		kk := 1 + int(nk)%max(1, len(r.refLog))
+		// how many operations would this resume perform? (dry run on a copy of the image)
+		n2 := r.dryResumeOps(targets)
+		kk := 1 + int(nk)%max(1, n2)
 		err, rep2 := r.dump(ctx, stor.Build(r.w.DB), targets, "simdb", r.opts(true), simos.Plan{FreezeBefore: kk})
 		r.evals++
 		ntag := fmt.Sprintf("%s; resume #%d crashed at its op %d (%s)", tag, ni+1, kk, rep2.FrozenAt)
 		if rep2.Frozen {
 			r.counters["nested_crashes_injected"]++
-			if d := r.imageInvariant(r.w.DB, ntag); d != "" {
+			if d := r.imageInvariant(r.expect, ntag); d != "" {
 				return "oracle:partial_dump_has_manifest", d
 			}
 			if hadCk {
@@ -416,7 +449,7 @@ func (r *runner) crashRun(k, j int, nested []uint32, neg string, negArg uint32) 
 					}
 				}
 			}
-		} else if d := r.afterResume(r.w.DB, err, pre, ck, hadCk, false, ntag); d != "" {
+		} else if d := r.afterResume(r.expect, err, pre, ck, hadCk, false, ntag); d != "" {
 			return "oracle:resume", d
 		}
 		tag = ntag
@@ -444,12 +477,12 @@ func (r *runner) crashRun(k, j int, nested []uint32, neg string, negArg uint32) 
 			return "oracle:resume_accepted_" + neg, fmt.Sprintf("%s; then resume with %s returned nil (a resume must never succeed when options, source or directory contents differ)", tag, neg)
 		}
 		// the tampered / changed state must not be made worse
-		if d := r.afterResume(r.w.DB, err, pre, ck, hadCk && !strings.HasPrefix(neg, "frag_"), false, tag+" + "+neg); d != "" {
+		if d := r.afterResume(r.expect, err, pre, ck, hadCk && !strings.HasPrefix(neg, "frag_"), false, tag+" + "+neg); d != "" {
 			return "oracle:resume", d
 		}
 		return "", ""
 	}
-	if d := r.afterResume(r.w.DB, err, pre, ck, hadCk, false, tag+"; final resume"); d != "" {
+	if d := r.afterResume(r.expect, err, pre, ck, hadCk, false, tag+"; final resume"); d != "" {
 		return "oracle:resume", d
 	}
 	return "", ""
@@ -512,14 +545,14 @@ func (r *runner) errorRun() (string, string) {
 		r.counters["fs_errors_injected_"+f.Errno]++
 	}
 	if err == nil {
-		if d := stor.CheckDump(r.out, r.w.DB, 2, allowCk); d != "" {
+		if d := stor.CheckDump(r.out, r.expect, 2, allowCk); d != "" {
 			return "oracle:dump_nil_but_incomplete", fmt.Sprintf("%s: Dump returned nil but %s", tag, d)
 		}
 		r.counters["dump_survived_fault"]++
 		r.hashes = append(r.hashes, hash64(tag+"|ok"))
 		return "", ""
 	}
-	if d := r.imageInvariant(r.w.DB, tag); d != "" {
+	if d := r.imageInvariant(r.expect, tag); d != "" {
 		return "oracle:partial_dump_has_manifest", d
 	}
 	pre := stor.SnapshotDir(r.out)
@@ -531,7 +564,7 @@ func (r *runner) errorRun() (string, string) {
 	err2, _ := r.dump(context.Background(), stor.Build(r.w.DB), targets, "simdb", r.opts(true), plan2)
 	r.evals++
 	r.hashes = append(r.hashes, hash64(fmt.Sprintf("%s|%v", tag, err2 == nil)))
-	if d := r.afterResume(r.w.DB, err2, pre, ck, hadCk, false, tag+"; resume"); d != "" {
+	if d := r.afterResume(r.expect, err2, pre, ck, hadCk, false, tag+"; resume"); d != "" {
 		return "oracle:resume", d
 	}
 	return "", ""
@@ -557,11 +590,27 @@ func exec(t *testing.T, w WL, _ simrt.Config) simh.Outcome {
 		o.Class, o.Detail = "oracle:reference_dump_failed", err.Error()
 		return o
 	}
-	if d := stor.CheckDump(r.out, w.DB, 2, false); d != "" {
-		o.Class, o.Detail = "oracle:reference_dump_incomplete", d
-		return o
+	if w.Opts.Salt == "" {
+		if d := stor.CheckDump(r.out, w.DB, 2, false); d != "" {
+			o.Class, o.Detail = "oracle:reference_dump_incomplete", d
+			return o
+		}
 	}
 	r.refLog, r.refCalls = rep.Log, src.Calls
+	r.expect = w.DB
+	if w.Opts.Salt != "" {
+		var names []string
+		for _, g := range w.DB.Graphs {
+			names = append(names, g.Name)
+		}
+		exp, err := stor.LoadSpec(r.out, names)
+		if err != nil {
+			o.Class, o.Detail = "oracle:reference_dump_incomplete", "scrubbed reference dump does not load: "+err.Error()
+			return o
+		}
+		r.expect = exp
+		o.Counters["scrubbed_workloads"]++
+	}
 	if len(r.refLog) == 0 {
 		o.Class, o.Detail = "infra", "the simulated file system saw no operation"
 		return o
